@@ -385,6 +385,13 @@ def minimize_lbfgsb(
         f0 = sf.fun(x)
     else:
         f0 = checkpoint.fun
+        if gradient_scaler is not None:
+            # The checkpoint carries the value and the gradient of the scaled
+            # objective: the factor is needed at once, because the target is tested
+            # on the unscaled value.
+            sf.scaling_factor = gradient_scaler(
+                x, np.array(checkpoint.jac, dtype=np.float64), lb, ub
+            )
 
     # potential update of stop criterion
     # Note: do not rely on a TypeError to detect a non-callable, that would hide
@@ -439,7 +446,8 @@ def minimize_lbfgsb(
     # scale the initial gradient and consequently the objective function
     # this is optional and needs to be investigated and documented.
     if gradient_scaler is not None:
-        sf.scaling_factor = gradient_scaler(x, grad, lb, ub)
+        if checkpoint is None:
+            sf.scaling_factor = gradient_scaler(x, grad, lb, ub)
 
         if logger is not None:
             logger.info(f"scaling factor = {sf.scaling_factor:.2e}")
